@@ -8,7 +8,7 @@ set -u
 patch=$(readlink -f "$1"); prop=$2; tier=${3:-quick}
 tag=$(echo "$patch" | md5sum | cut -c1-8)
 wt=/tmp/psv-seeded-$tag; bd=/verif/build-seeded-$tag
-git -C /repo worktree add -q --detach "$wt" HEAD || exit 3
+git -C /repo worktree add -q --detach "$wt" ${PSV_BASE_COMMIT:-HEAD} || exit 3
 trap 'git -C /repo worktree remove --force "$wt" >/dev/null 2>&1; rm -rf "$bd"' EXIT
 git -C "$wt" apply "$patch" || { echo "patch does not apply"; exit 3; }
 cd /verif
